@@ -10,6 +10,7 @@ import (
 	"strings"
 	"sync"
 	"sync/atomic"
+	"time"
 	"verifharness/tr"
 
 	wire "github.com/jeroenrinzema/psql-wire"
@@ -68,6 +69,9 @@ func c01validator(ctx context.Context, database, username, password string) (con
 	case strings.HasPrefix(password, "errt:"):
 		// the password matched but a later step of the validator failed
 		return ctx, true, errors.New("validator: profile lookup failed after the password matched")
+	case strings.HasPrefix(password, "panic:"):
+		var profiles map[string][]string
+		return ctx, len(profiles[username][0]) > 0, nil // index out of range: a validator bug for this user
 	case strings.HasPrefix(password, "nil:"):
 		// a rejection that hands back no context and no error
 		return nil, false, nil
@@ -341,6 +345,34 @@ func (ch c01) Run(c *core.Ctx) {
 		}
 		wg.Wait()
 		c.Count("concurrent_authentication_groups", 1)
+	}
+	// last case of the batch: a validator that fails by panicking for this user. A tree that does not
+	// recover panics of the embedding program's callbacks loses the process here (announced: not a finding);
+	// a tree that does recover them must not take the recovered panic for an accepted password
+	if c.Batch == 0 && c.Begin(99000000) {
+		c01slow.Store(false)
+		c.MayDie("the validator panics: without a recover around user callbacks the process ends")
+		conn := envs["cleartext"].Dial(&hs.Sess{Default: func(string) *hs.Prog { return probe }})
+		conn.Send(append(pg.Startup([][2]string{{"user", "nobody"}}), pg.Password("panic:x")...))
+		conn.Quiesce()
+		conn.Send(pg.Query("select 'after the panic'"))
+		conn.Quiesce()
+		// (the announcement stays in force to the end of the batch, which is here: a connection goroutine that
+		// panics first runs its deferred Close - the client sees the connection end a moment before the process does)
+		time.Sleep(200 * time.Millisecond)
+		kinds, served := replyKinds(conn.Out()), ""
+		for _, e := range conn.Events() {
+			if e.Kind == "cb" && e.Name != "validate" {
+				served += e.Name + " "
+			}
+		}
+		c.Count("panicking_validator_survived", 1)
+		c.Eval("panicking validator", true)
+		if strings.Contains(kinds, "R(0)") || strings.Contains(kinds, "Z") || served != "" {
+			c.Violate("session-without-acceptance", "a connection whose password validator panicked reached the authenticated phase", fmt.Sprintf("reply %s, callbacks: %s", kinds, served), nil)
+		}
+		conn.CloseWrite()
+		conn.WaitClosed()
 	}
 }
 
